@@ -162,7 +162,7 @@ CHECKS["C04"] = cfg(
     "C04", exhaustive=True,
     technique="runtime monitoring: entry-model oracle after every document operation (effect, id-uniqueness invariants, JSON round trip, full resolution table), exhaustive op sequences to bounded depth + random walks",
     level_text="All sequences of checked document mutations to depth 3 (quick) / 4 (thorough) over a 48-operation universe from four start documents (empty, built, with dangling references, with path/query id variants), plus long random walks over a larger universe and deserialised start documents, on CoreDocument and IotaDocument. After every step the harness compares the public snapshot with its own entry model: announced effect, refused-means-unchanged, the three id-uniqueness invariants, to_json/from_json identity, and every resolve_method/resolve_service/methods query in every scope against the set of answers the model allows.",
-    min={"quick": {"resolve_method_mut_checks": 10000000, "resolve_other_query_forms": 10000000, "insert_method_ok_custom_data": 3000, "insert_method_ok_builder_made": 8000,
+    min={"quick": {"resolve_exact_some_fullid_delim_fragment": 100000, "resolve_exact_some_relref_did_fragment": 25000, "insert_refused_taken_id_delim_fragment": 4000, "attach_true_relref_did_fragment": 100, "resolve_method_mut_checks": 10000000, "resolve_other_query_forms": 10000000, "insert_method_ok_custom_data": 3000, "insert_method_ok_builder_made": 8000,
                    "roundtrip_checks_with_custom_data": 8000,
                    "op_steps": 300000, "distinct_exact": 400000, "state_checks": 20000, "resolve_exact_some": 500000, "insert_method_ok": 10000,
                    "remove_method_some": 5000, "insert_service_ok": 4000, "attach_true": 8000, "detach_true": 3000, "start_accepted": 2000, "walks": 2000, "nontrivial": 500},
@@ -247,7 +247,7 @@ CHECKS["C05"] = cfg(
     "C05", bin="c05", death_is_violation=True,
     technique="runtime monitoring: process-wide panic monitor + shard-death observation (abort, stack overflow, OOM) over ~100 parsing/decoding/validating entry points fed exhaustive short strings, grammar-aware random structures and corpus mutation, followed by an accessor sweep on accepted values; overflow checks and debug assertions on",
     level_text="Eleven families of entry points (DID strings and setters, timestamps/urls/collections, JWKs and the concrete verifiers, JWS in three serializations, documents/services/methods and packed state metadata, credentials/presentations, the three validators over harness-signed hostile tokens against hostile documents, status lists/bitmaps, SD-JWT/disclosures/method digests) are fed directed hostile inputs, exhaustive short strings, grammar-aware random structures and byte/JSON mutations of the repository's own fixtures; every call runs under a panic hook and every accepted value goes through all accessors, formatters and serialisers. Two further families cover NetworkName (serde / TryFrom, then the DID and document constructors) and the SD-JWT VC module (integrity metadata, type / claim / display / issuer metadata with a finite resolver web, harness-signed SdJwtVc tokens through parse, accessors, presentation, signature / key-binding verification and validate; cyclic extends webs and recursive-$ref schemas in isolated child processes). A panic, arithmetic overflow, stack overflow or dying shard is a violation.",
-    min={"quick": {"cases_netname": 2000, "layered_payloads": 1000, "cases_sdjwtvc": 40000, "integrity_accepted": 3000, "typemeta_accepted": 800, "vc_parsed": 1000, "vc_validated": 500, "isolated_probes": 150, "isolated_returned": 120, "evaluations": 300000, "accepted": 50000, "accessor_calls": 500000, "cases_did": 150000, "cases_core": 40000, "cases_jwk": 15000, "cases_jws": 20000,
+    min={"quick": {"ts_wire_arith": 120000, "ts_arith_some": 120000, "ts_arith_none": 90000, "respelled_documents": 400, "noninjective_maps": 6000, "smd_into_iota_document_ok": 1200, "cases_netname": 2000, "layered_payloads": 1000, "cases_sdjwtvc": 40000, "integrity_accepted": 3000, "typemeta_accepted": 800, "vc_parsed": 1000, "vc_validated": 500, "isolated_probes": 150, "isolated_returned": 120, "evaluations": 300000, "accepted": 50000, "accessor_calls": 500000, "cases_did": 150000, "cases_core": 40000, "cases_jwk": 15000, "cases_jws": 20000,
                    "cases_docs": 25000, "cases_cred": 50000, "cases_valid": 12000, "cases_status": 2500, "cases_sdjwt": 7000, "credentials_validated": 150,
                    "presentations_validated": 100, "sd_jwt_validated": 80, "kb_jwt_validated": 70, "jws_verified": 100, "nontrivial": 250},
          "thorough": {"evaluations": 8000000, "accepted": 1200000, "accessor_calls": 10000000, "cases_valid": 300000, "nontrivial": 250}},
